@@ -8,7 +8,7 @@
     hypothesis on the world. *)
 From Coq Require Import List NArith ZArith Bool Arith.
 From BBS Require Import Common.Sx Store.Model Store.Wf Store.P08Frame Store.P08Step Store.P08Quarantine
-  Store.P08Monitor Run.RStore Run.R08.
+  Store.P08Monitor Store.P08Accept Run.RStore Run.R08.
 Import ListNotations.
 Open Scope N_scope.
 
@@ -147,9 +147,35 @@ Theorem monitor_silent_on_model : forall inp, mon08 inp (run_store inp) = [].
 Proof. exact mon08_silent_on_model. Qed.
 Print Assumptions monitor_silent_on_model.
 
-(** 5. still_accepts_uploads: NOT proved in general (needs the allocator
-    accounting of C04: [find_block_with_space] succeeds within its fuel when
-    a free region exists).  The example below exhibits it on a concrete run. *)
+(** ---- 5. still_accepts_uploads (partial) ---- *)
+(** Full statement (not proved): in every reachable state, OPutStart of an
+    object that fits a block parks whenever the allocator can supply a block.
+    Proved: in EVERY state (in particular after any number of detections,
+    whatever the quarantine boundary), OPutStart on a free thread id of an
+    object that fits a block either parks, or is refused with UNAVAILABLE by
+    the block-device allocator and then the free list of the resulting state
+    is empty (the exact condition: no free region at the moment a block is
+    needed, after the quarantine pops), or returns the model's out-of-fuel
+    code -1.  Never INTERNAL, never INVALID_ARGUMENT, never -2.  Not covered:
+    that -1 does not occur in reachable states (needs the allocator
+    accounting of C04: length s_blocks = s_old + s_cur + s_new, s_tbr below
+    the top of the list, fuel of the HasSpace loop). *)
+Theorem still_accepts_uploads_partial : forall w s tid o i s' out,
+  thr_get (s_threads s) tid = None -> osize w o <= c_bs (w_cfg w) ->
+  step w s (OPutStart tid o i) = (s', out) ->
+  out = Parked \/
+  (out = Done cUnavailable [] /\ in_memory (w_cfg w) = false /\ s_free s' = []) \/
+  out = Done (-1)%Z [].
+Proof. exact put_start_accepts. Qed.
+Print Assumptions still_accepts_uploads_partial.
+
+Theorem still_accepts_uploads_in_memory_partial : forall w s tid o i s' out,
+  in_memory (w_cfg w) = true ->
+  thr_get (s_threads s) tid = None -> osize w o <= c_bs (w_cfg w) ->
+  step w s (OPutStart tid o i) = (s', out) ->
+  out = Parked \/ out = Done (-1)%Z [].
+Proof. exact put_start_accepts_in_memory. Qed.
+Print Assumptions still_accepts_uploads_in_memory_partial.
 
 (** ---- non-vacuity: a run with a detection ---- *)
 Definition ex_cfg : config :=
